@@ -37,11 +37,11 @@ type fakeStream struct {
 	recv []*remote.Envelope
 }
 
-func (f *fakeStream) Context() context.Context                 { return context.Background() }
+func (f *fakeStream) Context() context.Context                  { return context.Background() }
 func (f *fakeStream) MsgSend(drpc.Message, drpc.Encoding) error { return nil }
 func (f *fakeStream) MsgRecv(drpc.Message, drpc.Encoding) error { return nil }
-func (f *fakeStream) CloseSend() error                         { return nil }
-func (f *fakeStream) Close() error                             { return nil }
+func (f *fakeStream) CloseSend() error                          { return nil }
+func (f *fakeStream) Close() error                              { return nil }
 func (f *fakeStream) Send(e *remote.Envelope) error {
 	b, err := e.MarshalVT()
 	if err != nil {
